@@ -552,3 +552,142 @@ func TestVerif_C17_ParkedSource(t *testing.T) {
 		}
 	})
 }
+
+// ---- first use of a fresh shared object; independent objects in the same instant -------------------------------------------------
+//
+// (1) ONE freshly constructed Block is handed to several goroutines whose FIRST calls on it — Decrypt, Encrypt, NewGCM+Seal, Open —
+// leave a spin barrier together: anything the object completes lazily on first use (a schedule derived on demand, a table built
+// once) is caught half-done by the second caller. Thousands of fresh objects per case, because the window is tens of nanoseconds.
+// (2) In the same instant every goroutine also hashes a message of its OWN with its OWN hash value, lengths chosen so that the
+// padding needs a second block (56..63 mod 64) and differ between goroutines: independent objects must not meet in shared scratch.
+
+func TestVerif_C17_FreshShared(t *testing.T) {
+	rec := stats.Get("C17", "fresh-shared")
+	rec.Rule("rapid draws keys, blocks, messages and a goroutine count 2..8; 1500 (thorough 6000) times a FRESH Block is constructed and handed to all goroutines, which leave a spin barrier together and make their first call on it (goroutine i: Decrypt / Encrypt / NewGCM+Seal / NewGCM+Open, rotating), then hash a message of their own (length 56..63 mod 64, different per goroutine) with sm3.New and SumSM3. Oracle: every result equals the reference's (sm4ref, gcmref, sm3ref). Non-trivial: every plan; distinct by plan.")
+	t.Cleanup(stats.FlushAll)
+	reps := 1500
+	if vt.Thorough() {
+		reps = 6000
+	}
+	rapid.Check(t, func(t *rapid.T) {
+		r := gen.Rand(t, "content")
+		g := gen.Int(t, "goroutines", 2, 8)
+		nk := 8
+		keys := make([][]byte, nk)
+		refs := make([]*sm4ref.Cipher, nk)
+		for i := range keys {
+			keys[i] = gen.RandBytes(r, 16)
+			refs[i] = sm4ref.New(keys[i])
+		}
+		blk := gen.RandBytes(r, 16)
+		nonce := gen.RandBytes(r, 12)
+		pt := gen.RandBytes(r, gen.Uniform(t, "ptlen", 1, 70))
+		aad := gen.RandBytes(r, gen.Uniform(t, "aadlen", 0, 20))
+		type exp struct{ enc, dec, sealed []byte }
+		exps := make([]exp, nk)
+		for i := range exps {
+			e, d := make([]byte, 16), make([]byte, 16)
+			refs[i].Encrypt(e, blk)
+			refs[i].Decrypt(d, blk)
+			exps[i] = exp{e, d, gcmref.Seal(refs[i], nonce, pt, aad, 16)}
+		}
+		msgs := make([][]byte, g)
+		digs := make([][]byte, g)
+		for i := range msgs {
+			msgs[i] = gen.RandBytes(r, 56+gen.Uniform(t, fmt.Sprintf("res%d", i), 0, 7)+64*(i+gen.Uniform(t, fmt.Sprintf("blk%d", i), 0, 3)))
+			digs[i] = c17Sm3(msgs[i])
+		}
+		first := gen.Uniform(t, "first-op", 0, 3)
+		rec.Case(stats.HashS(fmt.Sprint(g, first), c17hex(keys[0])), true, fmt.Sprintf("goroutines:%d", g))
+		if rec.WantSample("plan") {
+			rec.Sample("plan", map[string]interface{}{"goroutines": g, "fresh_blocks": reps, "hash_lengths": func() []int {
+				var l []int
+				for _, m := range msgs {
+					l = append(l, len(m))
+				}
+				return l
+			}()})
+		}
+		bar := &c17Barrier{n: int32(g)}
+		blocks := make([]cipher.Block, reps)
+		var bad atomic.Value
+		var wg sync.WaitGroup
+		report := func(s string) { bad.CompareAndSwap(nil, s) }
+		// the fresh Blocks are constructed by goroutine 0 between barriers, so that every repetition starts on an object nobody has used
+		for i := 0; i < g; i++ {
+			wg.Add(1)
+			go func(i int) {
+				defer wg.Done()
+				defer func() {
+					if p := recover(); p != nil {
+						report(fmt.Sprintf("goroutine %d panicked: %v", i, p))
+					}
+				}()
+				for rep := 0; rep < reps; rep++ {
+					k := rep % nk
+					if i == 0 {
+						b, err := sm4.NewCipher(keys[k])
+						if err != nil {
+							report("NewCipher: " + err.Error())
+						}
+						blocks[rep] = b
+					}
+					bar.wait() // the object exists ...
+					b := blocks[rep]
+					if b == nil {
+						return
+					}
+					bar.wait() // ... and now everybody makes a first call on it at once
+					switch (i + first + rep) % 4 {
+					case 0:
+						out := make([]byte, 16)
+						b.Decrypt(out, blk)
+						if !bytes.Equal(out, exps[k].dec) {
+							report(fmt.Sprintf("fresh Block %d: first Decrypt (goroutine %d of %d, all released together) gives %x, want %x", rep, i, g, out, exps[k].dec))
+						}
+					case 1:
+						out := make([]byte, 16)
+						b.Encrypt(out, blk)
+						if !bytes.Equal(out, exps[k].enc) {
+							report(fmt.Sprintf("fresh Block %d: first Encrypt (goroutine %d of %d) gives %x, want %x", rep, i, g, out, exps[k].enc))
+						}
+					case 2:
+						a, err := cipher.NewGCM(b)
+						if err != nil {
+							report("NewGCM: " + err.Error())
+							break
+						}
+						if out := a.Seal(nil, nonce, pt, aad); !bytes.Equal(out, exps[k].sealed) {
+							report(fmt.Sprintf("fresh Block %d: first NewGCM+Seal (goroutine %d of %d) differs from the reference", rep, i, g))
+						}
+					default:
+						a, err := cipher.NewGCM(b)
+						if err != nil {
+							report("NewGCM: " + err.Error())
+							break
+						}
+						if out, err := a.Open(nil, nonce, exps[k].sealed, aad); err != nil || !bytes.Equal(out, pt) {
+							report(fmt.Sprintf("fresh Block %d: first NewGCM+Open (goroutine %d of %d) fails: %v", rep, i, g, err))
+						}
+					}
+					h := sm3.New()
+					h.Write(msgs[i][:len(msgs[i])/2])
+					h.Write(msgs[i][len(msgs[i])/2:])
+					if d := h.Sum(nil); !bytes.Equal(d, digs[i]) {
+						report(fmt.Sprintf("repetition %d: goroutine %d hashing its own %d-byte message with its own hash value gets %x, want %x", rep, i, len(msgs[i]), d, digs[i]))
+					}
+					if d := sm3.SumSM3(msgs[i]); !bytes.Equal(d[:], digs[i]) {
+						report(fmt.Sprintf("repetition %d: SumSM3 of goroutine %d's own %d-byte message gives %x, want %x", rep, i, len(msgs[i]), d, digs[i]))
+					}
+					if bad.Load() != nil && rep%64 == 0 {
+						// keep passing barriers so nobody is left spinning, but the verdict is in
+					}
+				}
+			}(i)
+		}
+		wg.Wait()
+		if m := bad.Load(); m != nil {
+			vt.Fail(t, rec, "C17:fresh-shared:result-differs", "%s", m)
+		}
+	})
+}
